@@ -9,6 +9,8 @@ def U(name, entry, enforce, props, defines, note, bound=None, **kw):
     u.update(base); u.update(kw)
     if u["grade"] != "P":
         u["bound"] = bound
+    if os.environ.get("REQY_COVER"):
+        u["defines"] = u["defines"] + ["REQY_COVER 1"]
     units.append(u)
 
 CS_BOUND = ("lists hold at most the named members: context C1 in the named state of the request state machine (plus one other "
@@ -33,26 +35,112 @@ SEND = [
   ("answered_rt_rp1", st(3, RT=1), 1, 0, "previous request answered, reply stored and never received, a pipe is ready"),
   ("answered_nort_rp0", st(3, RT=0), 0, 0, "previous request answered, reply stored and never received"),
 ]
+SKIP = set(os.environ.get("REQY_SKIP", "idle_m_rp1 out_noretry_recv_m_rp1").split())
 for (n, d, rp, q2, note) in SEND:
-    U("req0_ctx_send_" + n, "h_req0_ctx_send", "req0_ctx_send", ["C04", "C03", "C15", "C20", "C12"], d + ["S_RP %d" % rp, "S_Q2 %d" % q2], note, CS_BOUND)
+    if n in SKIP:
+        continue
+    U("req0_ctx_send_" + n, "h_req0_ctx_send", "req0_ctx_send", ["C04", "C03", "C15", "C20", "C12"], d + ["S_RP %d" % rp, "S_Q2 %d" % q2], note, CS_BOUND,
+      **({"solver": os.environ["REQY_SOLVER"]} if os.environ.get("REQY_SOLVER") and "_m_rp1" in n else {}))
+
+# ---- socket-level wrappers ----
+for (n, d, note) in [
+  ("idle_rp0", st(0, CM=1), "socket's own context idle"),
+  ("sendpending_rt_recv_rp0", st(1, RT=1, RA=2, CM=1), "previous request still waiting for a pipe and a receive pending: both cancelled"),
+  ("out_own_recv_rp0", st(2, RM=1, RA=2, CM=1), "previous request outstanding with retained copy, receive pending"),
+]:
+    U("req0_sock_send_" + n, "h_req0_sock_send", "req0_sock_send", ["C04", "C03", "C15", "C20", "C12"], d + ["S_RP 0", "S_Q2 0"], "nng_send path: " + note, CS_BOUND)
+U("req0_sock_recv", "h_req0_sock_recv", "req0_sock_recv", ["C04", "C12", "C15"], ["REQ_CM 1"], "nng_recv path: receive on the socket's own context", grade="P")
+# ---- req0_ctx_reset / req0_ctx_fini ----
+RS_BOUND = "context C1 in the named state of the request state machine (lists hold at most C1 / the busy pipe P3 of its request); message contents, ids, reference counts symbolic"
+for (n, d, note) in [
+  ("idle", st(0), "no request; a stored reply may be left"),
+  ("out_own", st(2, RM=1, RA=2), "request outstanding with retained copy (resend time > 0), receive pending"),
+  ("out_own_queued", st(2, RM=1, SQ=1), "request outstanding, waiting for a resend"),
+  ("out_noretry", st(2, RM=2), "request outstanding, sent without a clone: req_msg dangles, must not be touched"),
+  ("answered", st(3, RT=1), "reply stored and never received"),
+]:
+    U("req0_ctx_reset_" + n, "h_req0_ctx_reset", "req0_ctx_reset", ["C03", "C04"], d, note, RS_BOUND)
+for (n, d, cl, note) in [
+  ("idle", st(0), 1, "no request"),
+  ("idle_m", st(0, CM=1), 1, "the socket's own context (req0_sock_fini)"),
+  ("sendpending_rt_recv", st(1, RT=1, RA=2), 1, "request still waiting for a pipe, receive pending: both fail NNG_ECLOSED, the message goes back"),
+  ("sendpending_nort", st(1, RT=0), 2, "request still waiting for a pipe (resend off)"),
+  ("out_own_recv", st(2, RM=1, RA=2), 2, "request outstanding with retained copy, receive pending"),
+  ("out_own_queued", st(2, RM=1, SQ=1), 1, "request outstanding, waiting for a resend"),
+  ("out_noretry_recv", st(2, RM=2, RA=2), 1, "request outstanding without a clone, receive pending"),
+  ("answered_rt", st(3, RT=1), 1, "reply stored and never received"),
+  ("answered_nort", st(3, RT=0), 2, "reply stored and never received (resend off)"),
+]:
+    U("req0_ctx_fini_" + n, "h_req0_ctx_fini", "req0_ctx_fini", ["C03", "C04", "C02"], d + ["F_CL %d" % cl], note, RS_BOUND + "; socket context list holds C1 (F_CL=1) or the socket's own context and C1 (F_CL=2)")
+U("req0_sock_close", "h_req0_sock_close", "req0_sock_close", ["C03"], [], "closed flag set under the lock", grade="P")
+# ---- req0_send_cb / req0_pipe_start ----
+AV_BOUND = "pipe P1 (the argument), at most one other ready pipe P2, the busy pipe P3 of C1's previous transmission; at most the context C1 waits on the send queue; pipe/socket closed flags, peer protocol, resend time, reference counts symbolic"
+U("req0_send_cb_failed", "h_req0_send_cb", "req0_send_cb", ["C03"], st(0) + ["SC_FAILED 1"], "send failed: message released once, pipe closed, no list touched", grade="P")
+for (n, d, rp2, note) in [
+  ("nowait", st(0), 0, "nobody waits: P1 becomes the only ready pipe, writable raised"),
+  ("nowait_rp2", st(0), 1, "nobody waits, P2 already ready: P1 goes to the TAIL"),
+  ("nowait_out", st(2, RM=1), 0, "C1's request is out on busy P3, nobody waits"),
+  ("first_rt", st(1, RT=1), 0, "C1 waits for its first transmission (resend on)"),
+  ("first_nort_recv", st(1, RT=0, RA=2), 0, "C1 waits for its first transmission (resend off), receive already pending"),
+  ("resend", st(2, RM=1, SQ=1), 0, "C1 waits for a resend (previous transmission on busy P3)"),
+]:
+    U("req0_send_cb_" + n, "h_req0_send_cb", "req0_send_cb", ["C12", "C15", "C03"], d + ["SC_RP2 %d" % rp2], note, AV_BOUND)
+    U("req0_pipe_start_" + n, "h_req0_pipe_start", "req0_pipe_start", ["C12", "C15", "C04"], d + ["SC_RP2 %d" % rp2], note, AV_BOUND)
+
+# ---- xreq.c ----
+XQ = dict(grade="P")
+U("xreq0_pipe_start", "h_xreq0_pipe_start", "xreq0_pipe_start", ["C03", "C04"], [], "wrong peer rejected; else get + receive armed once each", **XQ)
+U("xreq0_pipe_close", "h_xreq0_pipe_close", "xreq0_pipe_close", ["C03"], [], "four aios closed", **XQ)
+U("xreq0_getq_cb", "h_xreq0_getq_cb", "xreq0_getq_cb", ["C03"], [], "message from the send queue handed to the pipe once; failed get disconnects", **XQ)
+U("xreq0_send_cb", "h_xreq0_send_cb", "xreq0_send_cb", ["C03"], [], "successful send: next message asked for", **XQ)
+U("xreq0_send_cb_failed", "h_xreq0_send_cb", "xreq0_send_cb", ["C03"], ["XQ_FAILED 1"], "failed send: message released once, peer disconnected", **XQ)
+U("xreq0_putq_cb", "h_xreq0_putq_cb", "xreq0_putq_cb", ["C03"], [], "reply queued: forgotten by the pipe, receive re-armed once", **XQ)
+U("xreq0_putq_cb_failed", "h_xreq0_putq_cb", "xreq0_putq_cb", ["C03"], ["XQ_FAILED 1"], "queue refused: reply released once, peer disconnected", **XQ)
+U("xreq0_recv_cb_failed", "h_xreq0_recv_cb", "xreq0_recv_cb", ["C11"], ["XQ_FAILED 1"], "receive completed with an error", **XQ)
+U("xreq0_recv_cb_class", "h_xreq0_recv_cb", "xreq0_recv_cb", ["C11", "C03", "C04"], ["XQ_TRACK 2"], "backtrace loop closed by a woven loop invariant (one generic iteration); every body, every length; postconditions: outcome classes (which words carry the request bit)", grade="P", no_loop_contracts=False)
+U("xreq0_recv_cb_bytes", "h_xreq0_recv_cb", "xreq0_recv_cb", ["C11", "C03", "C04"], ["XQ_TRACK 1"], "same loop invariant; postconditions: where every body byte ends up (header in order, rest of the body unchanged)", grade="P", no_loop_contracts=False)
+XREQ_WEAVE = {"loops": {"xreq0_recv_cb": [{
+    "assigns": "end, msg->m_header_buf, msg->m_header_len, msg->m_body, msg->m_refcnt, g_env, g_free_calls",
+    "invariants": [
+        "(msg->m_header_len & 3) == 0 && msg->m_header_len <= 64",
+        "RR_LOOP_INV(msg, (msg->m_header_len >> 2), 0)",
+        "XQ_LOOP_BYTES(msg, (msg->m_header_len >> 2), end)",
+        "g_pipe_close_calls == __CPROVER_loop_entry(g_pipe_close_calls) && g_pipe_recv_calls == __CPROVER_loop_entry(g_pipe_recv_calls) && g_pipe_send_calls == __CPROVER_loop_entry(g_pipe_send_calls) && g_free_calls == __CPROVER_loop_entry(g_free_calls)"],
+    "decreases": "68 - msg->m_header_len"}]}}
+
+STUBS = [
+ "include/env_proto.h: nni_pipe_send/recv/close/id/peer (ghost records), nni_aio_finish*/start/close (ghost records; nni_aio_start answers with the environment value g_aio_start_ok), pollable raise/clear as ghost flags, nni_clock = g_now, stats/log no-ops, nni_atomic_* sequential, nni_panic = assertion failure",
+ "modules/xrep/env.h: nni_id_get/set/remove/alloc32 as a finite map with ONE tracked key g_idm_key that is a free ghost (so it stands for every key).  nni_id_alloc32 stands for the idhash contract (modules/idhash): it fails with NNG_ENOMEM without writing the id (environment value g_idm_alloc_ok), or hands out an id of the configured range [0x80000000, 0xffffffff] that is not in use (ASSUMED: two __CPROVER_assume in the stub) and registers it; nni_sleep_aio, nni_aio_bump_count, nni_aio_completions_* and nni_msgq_aio_get/aio_put as ghost records",
+ "modules/reqx/post.h + modules/reqy/post.h: nni_aio_finish* are routed through wrappers that keep a completion record per user aio (A, B, C: count, result, attached message) and the completion before the last one; nni_copyin_ms = environment value; nng_msg_header_append = the one-line public wrapper of src/nng.c (calls the real nni_msg_header_append); nni_sock_sendq/recvq = any pointer",
+ "include/env_sync.h: nni_mtx_* ghost lock discipline (interleavings NOT explored: every callback is verified as one atomic step under the socket lock)",
+ "include/env_alloc.h: nni_alloc/nni_zalloc/nni_free (may fail; sized-free assertion)",
+ "the real src/core/message.c and src/core/list.c are compiled into the unit and executed (not stubbed); socket, contexts, pipes and user aios are static harness objects linked in the shape the unit names (constant case split, DESIGN section 9), messages are __CPROVER_is_fresh heap objects",
+ "check class 'pointer relation:' excluded (message.c compares possibly-NULL chunk pointers), DFCC sanity check check_replace_ensures_was_freed_preconditions excluded (DESIGN section 9)",
+]
+NOT_DECIDED = [
+ "req0_ctx_send on the socket's own context WITH a ready pipe (units req0_ctx_send_idle_m_rp1, req0_ctx_send_out_noretry_recv_m_rp1; the same shapes for req0_sock_send): cbmc did not finish in 600 s (cadical; kissat tried) - context and list heads are sub-objects of one socket object; the same shapes with a separately allocated context are decided (req0_ctx_send_*_rp1), and the socket's own context is decided for every shape without a ready pipe (req0_ctx_send_idle_m_rp0, req0_sock_send_*)",
+ "req0_ctx_send with a ready pipe AND other contexts waiting, or with more than one ready pipe / more than one other waiting context: not built (the first is not a stable state of the socket: req0_run_send_queue runs until one of the two lists is empty)",
+ "req0_ctx_close: there is no such function in this tree (context close = req0_ctx_fini, which is under contract)",
+ "req0_sock_fini, req0_sock_init, req0_pipe_init/fini/stop, req0_ctx_init, option getters/setters other than NNG_OPT_REQ_RESENDTIME on a context (modules/req): no contract (object life cycle in the aio/socket core, not in these files)",
+ "xreq0_sock_send/xreq0_sock_recv (one-line forwards to nni_msgq_aio_put/get, covered by the msgqueue module), xreq0_pipe_stop/fini/init, xreq0_sock_* life cycle and NNG_OPT_MAXTTL: no contract",
+ "xreq0_recv_cb: one unit with ALL postconditions took 502 s (decided, passed); registered as two units that split the postconditions (outcome classes / byte positions) over the same loop invariant",
+ "C12 liveness (eventually answered), C04/C12 over interleavings of several contexts and pipes: not expressible as function contracts; every unit is one callback as an atomic step under the socket lock",
+ "observations recorded, not claimed as defects: (a) when nni_aio_start refuses, the message stays attached to the aio but its header has already been replaced by the 4-byte request id; (b) req0_ctx_fini hands an unsent request back to its aio with the request-id header still in place, whereas req0_ctx_send (supersede) and req0_ctx_cancel_send clear the header first",
+]
 
 spec = {
  "module": "reqy",
  "about": "the rest of src/sp/protocol/reqrep0/req.c (req0_ctx_send, req0_send_cb, req0_pipe_start, req0_ctx_fini/reset, req0_sock_close/send/recv) and src/sp/protocol/reqrep0/xreq.c",
- "sources": [{"path": "src/core/message.c"}, {"path": "src/core/list.c"}, {"path": "src/sp/protocol/reqrep0/req.c"}],
+ "sources": [{"path": "src/core/message.c"}, {"path": "src/core/list.c"}, {"path": "src/sp/protocol/reqrep0/req.c"}, {"path": "src/sp/protocol/reqrep0/xreq.c", "weave": XREQ_WEAVE}],
  "includes_before": ["modules/reqy/pre.h"],
  "includes_after": ["modules/reqy/post.h", "modules/reqx/contracts.h", "modules/reqx/harness.c", "modules/reqy/contracts.h", "modules/reqy/harness.c"],
  "excluded_checks": [
    {"match": "pointer relation:", "why": "message.c deliberately compares possibly-NULL chunk pointers (see modules/message/spec.json)"},
    {"match": "check_replace_ensures_was_freed_preconditions", "why": "DFCC library sanity check fails for every was_freed in a contract (DESIGN section 9)"}],
- "stubs": [],
- "not_decided": [],
+ "stubs": STUBS,
+ "not_decided": NOT_DECIDED,
  "units": units,
 }
-old = {}
 p = os.path.join(HERE, "spec.json")
-if os.path.exists(p):
-    o = json.load(open(p))
-    spec["stubs"] = o.get("stubs", []); spec["not_decided"] = o.get("not_decided", [])
 json.dump(spec, open(p, "w"), indent=1)
 print(len(units), "units")
